@@ -8,6 +8,7 @@ per-constraint and per-variable element views carry the same weights), every ini
 `eps = 0` is the exact-arithmetic reading of `sg_precision_workamount` (see `dblEq` in the model).
 -/
 import SgVerif.Lmm.Lemmas
+import SgVerif.Lmm.Termination
 namespace SgVerif.C15
 open SgVerif.Lmm
 
@@ -235,5 +236,39 @@ theorem bmfAccept_sound (S : Sys) (tol : Rat) (val : Nat → Rat) (h : bmfAccept
     rcases this with h | ⟨e, he, hw, hs⟩
     · exact Or.inl h
     · exact Or.inr ⟨e, he, hw, hs⟩
+
+
+/-! ### termination (fuel bound) -/
+
+/-
+Full-strength statement (DESIGN §8 `maxmin_terminates`): for every well-formed system, fuel = #variables + 1
+(≤ #variables + #constraints) suffices.  Proved below for systems whose active constraints are all summing (SHARED);
+missing for FATPIPE: "a positive usage_ of a light FATPIPE constraint is attained by an unfixed element" (the invariant
+only has `usage_ ≥ w/penalty` for the unfixed consumers), needed to show that a saturated FATPIPE constraint always
+contributes a variable to fix.
+-/
+
+/-- **`maxmin_terminates`, summing constraints, any variable bounds.**  `nv` bounds the variable indices; measure: number
+of unfixed variables among 0…nv-1, which strictly decreases at each pass of the do-while that starts with a non-empty
+light table (`round_progress`); so the model never runs out of fuel when `fuel ≥ nv + 1`. -/
+theorem maxmin_terminates_partial (S : Sys) (hwf : WF S) (hsh : ∀ c ∈ S.active, (S.cnst c).fatpipe = false) (nv : Nat)
+    (hnv : ∀ c ∈ S.active, ∀ e ∈ (S.cnst c).elems, e.1 < nv) (val0 : Nat → Rat) (fuel : Nat) (hfuel : nv + 1 ≤ fuel) :
+    (maxminSolve S 0 fuel val0).isSome = true :=
+  maxmin_terminates_shared S hwf hsh nv hnv val0 fuel hfuel
+
+/-- with `nc` constraints: `#variables + #constraints + 1` is enough a fortiori -/
+theorem maxmin_terminates_partial' (S : Sys) (hwf : WF S) (hsh : ∀ c ∈ S.active, (S.cnst c).fatpipe = false) (nv nc : Nat)
+    (hnv : ∀ c ∈ S.active, ∀ e ∈ (S.cnst c).elems, e.1 < nv) (val0 : Nat → Rat) :
+    (maxminSolve S 0 (nv + nc + 1) val0).isSome = true :=
+  maxmin_terminates_shared S hwf hsh nv hnv val0 _ (by omega)
+
+/-- together with `maxmin_feasible`: on SHARED-only systems the solver returns a feasible allocation -/
+theorem maxmin_total_feasible_partial (S : Sys) (hwf : WF S) (hsh : ∀ c ∈ S.active, (S.cnst c).fatpipe = false) (nv : Nat)
+    (hnv : ∀ c ∈ S.active, ∀ e ∈ (S.cnst c).elems, e.1 < nv) (val0 : Nat → Rat) :
+    ∃ st, maxminSolve S 0 (nv + 1) val0 = some st ∧ ∀ c ∈ S.active, load S st.value c ≤ (S.cnst c).bound := by
+  have h := maxmin_terminates_shared S hwf hsh nv hnv val0 (nv + 1) (le_refl _)
+  cases hs : maxminSolve S 0 (nv + 1) val0 with
+  | none => rw [hs] at h; simp at h
+  | some st => exact ⟨st, rfl, (maxmin_feasible S hwf val0 (nv + 1) st hs).1⟩
 
 end SgVerif.C15
